@@ -89,6 +89,13 @@ def check_config(acc: Acc, cfg):
     inv, sim = siminv.build_direct(cfg, default=lambda a: (a * 13 + 5) & 0xFFFF)
     if cfg["family"] == "ET":
         sim.set(35184, cfg.get("battery_mode", 1))
+    if cfg.get("info"):
+        inf = cfg["info"]
+        if cfg["family"] == "ET":
+            sim.set_bytes(0x88b8, siminv.et_device_info(serial=cfg["serial"], rated_power=cfg.get("rated_power", 10000), arm=inf["arm"], dsp1=inf["dsp1"],
+                                                        dsp2=inf["dsp2"], ac_output_type=inf["ac_output_type"], modbus_version=inf["modbus_version"]))
+        else:
+            sim.set_bytes(0x7531, siminv.dt_device_info(serial=cfg["serial"], arm=inf["arm"], dsp1=inf["dsp1"], dsp2=inf["dsp2"]))
     fault = None
     if cfg.get("transient"):
         k, kind = cfg["transient"]
@@ -110,7 +117,7 @@ def check_config(acc: Acc, cfg):
         acc.fail("C14|%s|exception|%s" % (cfg["family"], type(ex).__name__), repr(ex), cfg)
         return
     if nondefault:
-        acc.nontrivial(cfg["family"], cfg["serial"], cfg.get("rated_power"), cfg.get("battery_mode"), tuple(cfg.get("refuse", ())), cfg.get("tcp"), repr(cfg.get("transient")))
+        acc.nontrivial(cfg["family"], cfg["serial"], cfg.get("rated_power"), cfg.get("battery_mode"), tuple(cfg.get("refuse", ())), cfg.get("tcp"), repr(cfg.get("transient")), repr(cfg.get("info")))
     acc.cls("reads", log.reads)
     seen = set()
     for sid, first, count, pos, req, got in log.short:
@@ -161,6 +168,32 @@ def transient_configs():
                     yield {"family": "DT", "serial": serial, "refuse": list(refuse), "tcp": False, "transient": [k, kind]}
 
 
+def devinfo_configs():
+    """Firmware / device-info fields that capability decisions may depend on: ARM and DSP versions, output type, power boundaries."""
+    serials = [b"9010KETU000W0000", b"9010KETT000W0000", b"95000EHU000W0001", b"9010KBTU000W0000", b"929K9ETT00W00001"]
+    for serial in serials:
+        for power in (0, 3000, 14999, 15000, 24999, 25000, 65535):
+            for arm in range(0, 48):
+                for refuse in ((), ("meter_ext2",), ("meter_ext",), ("mppt", "battery2")):
+                    yield {"family": "ET", "serial": serial, "rated_power": power, "battery_mode": 1, "refuse": list(refuse), "tcp": bool(arm & 1),
+                           "info": {"arm": arm, "dsp1": (arm * 3) % 40, "dsp2": arm % 7, "ac_output_type": arm % 3, "modbus_version": arm % 5}}
+    for serial in (b"9010KDTU000W0000", b"9010KDSN000W0000", b"9010KMSU000W0000"):
+        for arm in range(0, 48):
+            for refuse in ((), ("meter",)):
+                yield {"family": "DT", "serial": serial, "refuse": list(refuse), "tcp": bool(arm & 1), "info": {"arm": arm, "dsp1": arm % 30, "dsp2": (arm * 5) % 30}}
+
+
+def devinfo_job(j):
+    part, parts = j
+    acc = Acc()
+    for i, cfg in enumerate(devinfo_configs()):
+        if i % parts == part:
+            check_config(acc, cfg)
+            if len(acc.samples) < 1 and cfg["info"]["arm"] == 24:
+                acc.sample(cfg)
+    return acc
+
+
 def transient_job(j):
     part, parts = j
     acc = Acc()
@@ -186,6 +219,8 @@ def job(j):
 def run(ctx):
     jobs = [("ET", p, 15) for p in range(15)] + [("DT", 0, 1)]
     ctx.shard(job, jobs, "complete enumeration of model configurations (direct simulator path, instrumented ProtocolResponse.read)")
+    ctx.shard(devinfo_job, [(p, 16) for p in range(16)], "device-info sweep: ARM firmware 0..47 (with DSP versions, output type, Modbus version) x power boundaries x capability classes")
+    ctx.exhaustive_parts.append("5 ET capability classes x 7 rated-power boundary values x ARM firmware 0..47 x 4 refusal sets; 3 DT classes x ARM 0..47 x 2")
     ctx.shard(transient_job, [(p, 16) for p in range(16)], "same, plus one transient failure (no answer / exception 4) at request k of the polling sequence, 4 polls")
     ctx.exhaustive_parts.append("6 ET capability classes x 3 power classes x 32 refusal subsets x transient failure at request 0..8 x {silent, busy}; DT likewise")
     ctx.exhaustive_parts.append("ET: %d serial tags x 3 power classes x battery on/off x 32 refusal subsets x UDP/TCP; DT: %d tags x 8 refusal subsets x UDP/TCP" % (
